@@ -1,5 +1,5 @@
 #!/bin/bash
-# usage: confirm_seed.sh <worktree> <change-dir> <demo-pkg-dir> <seed-id> <check-prop>
+# usage: confirm_seed.sh <worktree> <change-dir> <demo-pkg-dir> <seed-id> <check-prop> [build-tags] [extra go test flags, e.g. -race]
 # Confirms in the scratch worktree that the change compiles, passes the existing tests, that the demo fails with it and
 # passes without; then runs ./check <prop> against /repo with the patch applied (and reverts), and files everything under seeded/<id>/.
 set -u
@@ -14,9 +14,9 @@ go build ./... || { echo "BUILD FAILS"; exit 1; }
 T1=$(go test -count=1 ./... 2>&1 | grep -E "^(FAIL|---)" | head -5)
 if [ -n "$T1" ]; then T1=$(go test -count=1 ./... 2>&1 | grep -E "^(FAIL|---)" | head -5); fi
 cp $CH/demo_test.go $WT/$DEMO/zz_demo_test.go
-D1=$(cd $WT/$DEMO && go test ${6:+-tags $6} -count=1 -run 'Demo' . 2>&1 | tail -1)
+D1=$(cd $WT/$DEMO && go test ${6:+-tags $6} ${7:-} -count=1 -run 'Demo' . 2>&1 | tail -1)
 git checkout -q -- .
-D2=$(cd $WT/$DEMO && go test ${6:+-tags $6} -count=1 -run 'Demo' . 2>&1 | tail -1)
+D2=$(cd $WT/$DEMO && go test ${6:+-tags $6} ${7:-} -count=1 -run 'Demo' . 2>&1 | tail -1)
 rm -f $WT/$DEMO/zz_demo_test.go
 cd /verif
 git -C /repo apply $CH/patch.diff
